@@ -1,40 +1,58 @@
-(* C10/GenOk.v — obligations tying the hand-written text model (C10/Model.v: id_string,
-   feature_id_string and the parse functions) to what the source says now: the Sprintf format strings of the
-   String methods, the separators and the ParseInt base/width used by the parsers, as
-   re-extracted from /repo by translator/cmd/ids on every run. *)
+(* C10/GenOk.v — obligations tying the HAND-WRITTEN models (C10/Model.v: the String / Parse*
+   text functions, Counts, the id lists) to the code as it is now.
+
+   The tie is behavioural: translator/cmd/ids runs a small Go program against the repository at
+   translation time and records what the functions return on a fixed id set / string corpus /
+   lists (the sample_ definitions of VerifGen.GenIds).  The obligations below say that the model returns exactly
+   that, by evaluation.  (Earlier versions compared fingerprints of the source text — format
+   strings, "calls strings.Split" — which broke under behaviour-preserving rewrites.)
+   The integer functions are tied by translation: see GenSem.v. *)
 From Coq Require Import ZArith List String Bool.
+From Verif Require Import Base.Wire C10.Model.
 From VerifGen Require Import GenIds.
 Import ListNotations.
-Open Scope string_scope.
+Open Scope Z_scope.
 
-Example object_string_formats : lits_ObjectID_String = ["%s/%d:-"; "%s/%d:%d"].
-Proof. reflexivity. Qed.
-Example element_string_formats : lits_ElementID_String = ["%s/%d:-"; "%s/%d:%d"].
-Proof. reflexivity. Qed.
-Example feature_string_formats : lits_FeatureID_String = ["unknown"; "%s/%d"].
-Proof. reflexivity. Qed.
+Definition oZ_eqb := opt_eqb Z.eqb.
 
-Definition has (s : string) (l : list string) : bool := existsb (String.eqb s) l.
-Definition hasz (z : Z) (l : list Z) : bool := existsb (Z.eqb z) l.
+Definition model_string (w id : Z) : string :=
+  if w =? 0 then object_id_string id else if w =? 1 then element_id_string id else feature_id_string id.
 
-Example parsers_use_model_separators :
-  has "/" lits_ParseObjectID && has ":" lits_ParseObjectID && has "-" lits_ParseObjectID &&
-  has "/" lits_ParseElementID && has ":" lits_ParseElementID && has "-" lits_ParseElementID &&
-  has "/" lits_ParseFeatureID && negb (has ":" lits_ParseFeatureID) &&
-  hasz 10 ints_ParseObjectID && hasz 64 ints_ParseObjectID &&
-  hasz 10 ints_ParseElementID && hasz 64 ints_ParseElementID &&
-  hasz 10 ints_ParseFeatureID && hasz 64 ints_ParseFeatureID &&
-  has "strings.Split" calls_ParseObjectID && has "strconv.ParseInt" calls_ParseObjectID &&
-  has "strings.Split" calls_ParseElementID && has "strconv.ParseInt" calls_ParseElementID &&
-  has "strings.Split" calls_ParseFeatureID && has "strconv.ParseInt" calls_ParseFeatureID = true.
+Definition model_parse (w : Z) (s : string) : option Z :=
+  if w =? 0 then parse_object_id s else if w =? 1 then parse_element_id s else parse_feature_id s.
+
+Definition kind_of_code (c : Z) : kind := nth (Z.to_nat c) all_kinds KUser.
+Definition triples (l : list (Z * Z * Z)) : list (kind * Z * Z) :=
+  map (fun '(k, r, v) => (kind_of_code k, r, v)) l.
+
+Definition model_counts (w : Z) (l : list (Z * Z * Z)) : list Z :=
+  let ids := objects_object_ids (triples l) in
+  let '(n, wy, r) := if w =? 0 then feature_ids_counts ids else element_ids_counts ids in
+  [n; wy; r].
+
+Definition model_list (w : Z) (l : list (Z * Z * Z)) : list Z :=
+  if w =? 0 then elements_element_ids (triples l)
+  else if w =? 1 then elements_feature_ids (triples l)
+  else objects_object_ids (triples l).
+
+(* the samples are there (a silent empty sample would make the obligations vacuous) *)
+Example samples_present :
+  (100 <=? Z.of_nat (List.length sample_strings)) && (300 <=? Z.of_nat (List.length sample_parses))
+  && (8 <=? Z.of_nat (List.length sample_counts)) && (8 <=? Z.of_nat (List.length sample_lists)) = true.
 Proof. vm_compute. reflexivity. Qed.
 
-(* the loops modelled by hand in Model.v (Counts, id lists): the calls the source makes now.
-   FeatureIDs.Counts switches on id.Type(), ElementIDs.Counts on the masked integer (no call);
-   the id lists append e.ElementID() / e.FeatureID() / o.ObjectID() of every item. *)
-Example loops_use_modelled_calls :
-  has "id.Type" calls_FeatureIDs_Counts && negb (has "id.Type" calls_ElementIDs_Counts) &&
-  has "e.ElementID" calls_Elements_ElementIDs && has "append" calls_Elements_ElementIDs &&
-  has "e.FeatureID" calls_Elements_FeatureIDs && has "append" calls_Elements_FeatureIDs &&
-  has "o.ObjectID" calls_Objects_ObjectIDs && has "append" calls_Objects_ObjectIDs = true.
+Example sampled_strings_are_the_models :
+  forallb (fun '(w, id, s) => String.eqb (model_string w id) s) sample_strings = true.
+Proof. vm_compute. reflexivity. Qed.
+
+Example sampled_parses_are_the_models :
+  forallb (fun '(w, s, o) => oZ_eqb (model_parse w s) o) sample_parses = true.
+Proof. vm_compute. reflexivity. Qed.
+
+Example sampled_counts_are_the_models :
+  forallb (fun '(w, l, o) => list_eqb Z.eqb (model_counts w l) o) sample_counts = true.
+Proof. vm_compute. reflexivity. Qed.
+
+Example sampled_id_lists_are_the_models :
+  forallb (fun '(w, l, o) => list_eqb Z.eqb (model_list w l) o) sample_lists = true.
 Proof. vm_compute. reflexivity. Qed.
